@@ -4,22 +4,35 @@
 (* events: [k |-> "ready", v] [k |-> "known", v] [k |-> "reply", q, b] [k |-> "replyerr"]                              *)
 (*         [k |-> "measure", admitted, (window)]  -- taken at least one reconcile period after the last change          *)
 EXTENDS Naturals, Integers, Sequences, TLC, Json
-CONSTANT TraceFile
+CONSTANTS TraceFile, Deviations        \* Deviations: named known findings (KNOWN_FINDINGS.json) a rejection may be explained with; {} = the property as stated
 Traces == ndJsonDeserialize(TraceFile)
-VARIABLES tr, l, ready, last, glob       \* glob: the global limit as configured NOW (events [k |-> "global", q])
-vars == <<tr, l, ready, last, glob>>
+VARIABLES tr, l, ready, last, glob,      \* glob: the global limit as configured NOW (events [k |-> "global", q])
+          hp, hc                         \* requests that STAY in flight (events "hold" / "unhold"): admitted before / since the last readiness flip or server answer
+vars == <<tr, l, ready, last, glob, hp, hc>>
 T == Traces[tr]
 Ev == T.events[l]
-Init == tr \in DOMAIN Traces /\ l = 1 /\ ready = FALSE /\ last = [k |-> "none", q |-> 0, b |-> 0] /\ glob = T.global
-\* what the measured admission must be
-MifOK(e) == /\ e.admitted <= T.global                                           \* never more than the global limit, whatever the server said
-            /\ (~ready \/ T.nilcs) => e.admitted = T.local                       \* server unknown / not ready: exactly the local limit
-            /\ (ready /\ ~T.nilcs /\ last.k = "reply" /\ last.q >= 1 /\ last.q <= T.global) => e.admitted = last.q     \* a usable quota takes effect
+Init == tr \in DOMAIN Traces /\ l = 1 /\ ready = FALSE /\ last = [k |-> "none", q |-> 0, b |-> 0] /\ glob = T.global /\ hp = 0 /\ hc = 0
+\* what the measured admission must be.  Requests in flight count whichever limiter admitted them (hp + hc): the property speaks of the
+\* instance's in-flight concurrency.  cnt: the requests in flight the limit is compared with
+Max0(x) == IF x > 0 THEN x ELSE 0
+Usable == ready /\ ~T.nilcs
+MifWith(e, cnt) ==
+            /\ e.admitted + cnt <= (IF cnt > T.global THEN cnt ELSE T.global)      \* never more than the global limit in flight, whatever the server said
+            /\ ~Usable => e.admitted = Max0(T.local - cnt)                         \* server unknown / not ready: exactly the local limit
+            /\ (Usable /\ last.k = "reply" /\ last.q >= 1 /\ last.q <= T.global) => e.admitted = Max0(last.q - cnt)     \* a usable quota takes effect
+            /\ (Usable /\ last.k = "replybad") => e.admitted = Max0(T.local - cnt)                                    \* an answer without a usable limit: the local limit, not none
             /\ e.admitted >= 0
+\* known finding SplitAccounting: the local and the remote limiter are separate objects, each counts the requests it admitted itself.  A
+\* measurement the property rejects is explained by it only if requests admitted BEFORE the last event that can switch the limiter in force
+\* (a readiness flip, a server answer) are still in flight (hp > 0), and the measurement is exactly what the property demands of a limiter that
+\* counts all requests admitted since (hc) but misses at least one of the earlier ones
+MifOK(e) == \/ MifWith(e, hp + hc)
+            \/ /\ "SplitAccounting" \in Deviations /\ hp > 0 /\ hp <= T.global
+               /\ \E c \in hc..(hp + hc - 1) : MifWith(e, c)
 \* token bucket: admissions in a window of W seconds are bounded by burst + qps*W of the limit in force
 TbBound(q, b, w) == b + q * w
 TbOK(e) == /\ e.admitted <= TbBound(T.global, T.globalBurst, e.window)
-           /\ (~ready \/ T.nilcs) => (e.admitted <= TbBound(T.local, T.localBurst, e.window) /\ e.admitted >= T.local * (e.window - 1))
+           /\ (~ready \/ T.nilcs \/ last.k = "replybad") => (e.admitted <= TbBound(T.local, T.localBurst, e.window) /\ e.admitted >= T.local * (e.window - 1))
            /\ (ready /\ ~T.nilcs /\ last.k = "reply" /\ last.q >= 1 /\ last.q <= T.global /\ last.b >= last.q /\ last.b <= T.globalBurst) =>
                  (e.admitted <= TbBound(last.q, last.b, e.window) /\ e.admitted >= last.q * (e.window - 1))
 \* global-COUNT strategy (GlobalCount.tla): events [k |-> "acq", gk |-> "accept"|"reject"|"fail"|"tooold", q]; every measurement is taken
@@ -32,12 +45,17 @@ GcMifOK(e) == /\ e.admitted <= glob /\ e.admitted >= 0                        \*
               /\ (ready /\ last.k = "reject") => e.admitted <= ClampTo(last.q, 0, glob)
 GcTbOK(e) == /\ e.admitted <= TbBound(T.global, T.globalBurst, e.window)
              /\ (~ready \/ last.k = "fail") => (e.admitted <= TbBound(T.local, T.localBurst, e.window) /\ e.admitted >= T.local * (e.window - 1))
-Accept == Ev.k = "measure" => IF T.strategy = "globalCount" THEN (IF T.type = "mif" THEN GcMifOK(Ev) ELSE GcTbOK(Ev))
+\* "hold": got more requests were admitted (until refused or want reached) and stay in flight: judged like a measurement of got
+HoldOK(e) == T.strategy = "globalCount" \/ T.type # "mif" \/ (e.got = e.want /\ e.got + hp + hc <= T.global) \/ (e.got < e.want /\ MifOK([admitted |-> e.got]))
+Switch == Ev.k \in {"ready", "reply", "replyerr", "replybad"}
+Accept == IF Ev.k = "hold" THEN HoldOK(Ev) ELSE Ev.k = "measure" => IF T.strategy = "globalCount" THEN (IF T.type = "mif" THEN GcMifOK(Ev) ELSE GcTbOK(Ev))
                               ELSE IF T.type = "mif" THEN MifOK(Ev) ELSE TbOK(Ev)
 Next == /\ l <= Len(T.events) /\ Accept /\ l' = l + 1 /\ tr' = tr
         /\ ready' = IF Ev.k = "ready" THEN Ev.v ELSE ready
         /\ glob' = IF Ev.k = "global" THEN Ev.q ELSE glob
-        /\ last' = IF Ev.k \in {"reply", "replyerr"} THEN [k |-> Ev.k, q |-> Ev.q, b |-> Ev.b]
+        /\ hp' = IF Ev.k = "unhold" THEN 0 ELSE IF Switch THEN hp + hc ELSE hp
+        /\ hc' = IF Ev.k = "unhold" \/ Switch THEN 0 ELSE IF Ev.k = "hold" THEN hc + Ev.got ELSE hc
+        /\ last' = IF Ev.k \in {"reply", "replyerr", "replybad"} THEN [k |-> Ev.k, q |-> Ev.q, b |-> Ev.b]
                    ELSE IF Ev.k = "acq" /\ Ev.gk # "tooold" THEN [k |-> Ev.gk, q |-> Ev.q, b |-> 0] ELSE last
 Spec == Init /\ [][Next]_vars
 Judge == (l <= Len(T.events) /\ ~Accept) => PrintT(<<"REJECT", T.id, l>>)
